@@ -64,6 +64,7 @@ type runner struct {
 	inBlock    bool
 	gridSeen   map[string]int
 	desync     bool            // the model can no longer follow the server (non-serializable block)
+	departStep int             // index of the last step in which a member left its session (close, reset, protocol error, switch)
 	doubleKeys map[string]bool // component keys that two requests of a block both added successfully
 }
 
@@ -340,6 +341,7 @@ func (r *runner) runSeq(st *Step) {
 	}
 	switch st.Op {
 	case "close", "rst":
+		r.departStep = r.stepIdx
 		r.noteS0(st)
 		r.markAll()
 		hadEntities := mc.Session != nil
@@ -973,6 +975,9 @@ func (r *runner) checkInvariants() {
 				d := fmt.Sprintf("session %s keeps component (type %d, entity %d) although entity %d does not exist", s.ID, k.Type, k.Entity, k.Entity)
 				r.v("C09", "state-invariant", "%s", d)
 				r.v("C12", "cascade-missing", "%s", d)
+				if r.departStep == r.stepIdx {
+					r.v("C06", "attachment-survived", "(a member left in this step) %s", d)
+				}
 			}
 		}
 		var ae []uint32
@@ -985,6 +990,9 @@ func (r *runner) checkInvariants() {
 				d := fmt.Sprintf("session %s keeps %d action(s) of entity %d, which does not exist", s.ID, len(s.Actions[e]), e)
 				r.v("C09", "state-invariant", "%s", d)
 				r.v("C16", "attached-to-missing-entity", "%s", d)
+				if r.departStep == r.stepIdx {
+					r.v("C06", "attachment-survived", "(a member left in this step) %s", d)
+				}
 			}
 		}
 		ae = ae[:0]
